@@ -3,7 +3,8 @@ import AsyncsshModel.Model.Socks
 import AsyncsshModel.Gen.C20
 /- Line-protocol driver for the C20 correspondence (see harness/props/C20.py).
 
-   relay <a|f> <ev>...      relay machine from `initListener`; events
+   relay <a|e|l|f> <ev>...  relay machine from `initListener` (variant: as is / EOF repair / early-loss repair /
+                            both); events
                               ds<hex> dc<hex> (data sock/chan)  es ec (eof)  ls lc (lost)  ps pc (pause_writing)
                               rs rc (resume_writing)  ok (confirm)  fail
                             answer: one group per event, groups joined by `|`; a group is `L`/`I` (legal/illegal
@@ -57,7 +58,8 @@ def showOut : Out → String
   | .assertFail => "A"
 
 def parseVariant (s : String) : Option Variant :=
-  if s == "a" then some .asIs else if s == "f" then some .fixed else none
+  if s == "a" then some .asIs else if s == "f" then some .fixed
+  else if s == "e" then some ⟨true, false⟩ else if s == "l" then some ⟨false, true⟩ else none
 
 def runRelay (v : Variant) : Relay → List Ev → List String
   | _, [] => []
@@ -177,12 +179,12 @@ def stepLine (_ : Unit) (ws : List String) : Unit × String :=
         | none => "invalid"
       | none => "bad-op"
     | "listen" :: v :: evs =>
-      match parseVariant v, evs.mapM parseLEv with
-      | some v, some evs =>
-        let s := lrun v {} evs
+      match evs.mapM parseLEv with
+      | some evs =>
+        let s := lrun (v == "f") {} evs
         "table=" ++ showIds (s.table.map (·.2)) ++ " listening=" ++ showIds s.listening
           ++ " pending=" ++ showIds (s.pending.map (·.1))
-      | _, _ => "bad-op"
+      | none => "bad-op"
     | _ => "bad-op"
   ((), r)
 
